@@ -325,6 +325,81 @@ func ruleCmd(c *Ctx) {
 			add("(v) exit calls only on error edges; std logger not redirected", b.rel(mainFn.Pos()), bad == "", "every log.Fatal*/os.Exit is dominated by the non-nil edge of an error test; no log.SetOutput", bad)
 		}
 
+		// (viii) no silent success: every way out of the command that is not an error exit has
+		// written the result — an early `return` (empty input, nothing to do) leaves the patch
+		// files unread, so a malformed one goes unreported and the exit status says success
+		{
+			key := "(viii) every normal exit of the command comes after the result was written"
+			inCmdSet := map[*ssa.Function]bool{}
+			for _, fn := range fns {
+				inCmdSet[fn] = true
+			}
+			memo := map[*ssa.Function]int{}
+			var mustPrint func(fn *ssa.Function, depth int) (bool, string)
+			mustPrint = func(fn *ssa.Function, depth int) (bool, string) {
+				if v, ok := memo[fn]; ok {
+					return v == 1, ""
+				}
+				memo[fn] = 2
+				if depth > 4 || len(fn.Blocks) == 0 {
+					return false, ""
+				}
+				printsIn := func(bb *ssa.BasicBlock) bool {
+					for _, ins := range bb.Instrs {
+						if w, _ := isStdoutWrite(ins); w {
+							return true
+						}
+						if call, ok := ins.(*ssa.Call); ok {
+							if g := call.Call.StaticCallee(); g != nil && inCmdSet[g] && g != fn {
+								if ok, _ := mustPrint(g, depth+1); ok {
+									return true
+								}
+							}
+						}
+					}
+					return false
+				}
+				ei := errResultIndex(fn)
+				why := ""
+				seen := map[*ssa.BasicBlock]bool{}
+				var walk func(bb *ssa.BasicBlock) bool // true: a success exit reachable without printing
+				walk = func(bb *ssa.BasicBlock) bool {
+					if seen[bb] {
+						return false
+					}
+					seen[bb] = true
+					if printsIn(bb) {
+						return false
+					}
+					for _, ins := range bb.Instrs {
+						if nr, _ := isNonReturningCall(ins); nr {
+							return false
+						}
+					}
+					if r, ok := lastInstr(bb).(*ssa.Return); ok {
+						if ei >= 0 && b.definitelyNonNilErr(retVal(r, ei), bb, 0) {
+							return false
+						}
+						why = "the exit at " + b.posOf(r) + " of " + fname(fn) + " is reached without the result having been written"
+						return true
+					}
+					for _, sx := range bb.Succs {
+						if walk(sx) {
+							return true
+						}
+					}
+					return false
+				}
+				if walk(fn.Blocks[0]) {
+					return false, why
+				}
+				memo[fn] = 1
+				return true, ""
+			}
+			ok, why := mustPrint(mainFn, 0)
+			add(key, b.rel(mainFn.Pos()), ok, "every path from main's entry to a normal exit passes the write of the result (in main or in a helper it must pass)", why+": the command exits 0 with no document although not every patch file has been read and decoded")
+		}
+
 		// (iii) order and chaining, (vii) one file per -p value. Both are statements about
 		// where values come from; the command's functions may be cut into helpers in any way, so
 		// values are followed through the command package: the result of a helper stands for
